@@ -346,6 +346,18 @@ impl Rasn {
                     )
                 }
             }
+            // the governing type is a reference to the ENUMERATED type: the enumeral is wrapped in it
+            ASN1Value::EnumeratedValue { enumerated, .. }
+                if matches!(ty, ASN1Type::ElsewhereDeclaredType(e) if &e.identifier != enumerated) =>
+            {
+                call_template!(
+                    self,
+                    primitive_value_template,
+                    tld,
+                    self.to_rust_title_case(&ty.as_str()),
+                    assignment!(self, &ty.as_str(), self.value_to_tokens(&tld.value, None)?)
+                )
+            }
             ASN1Value::EnumeratedValue {
                 enumerated,
                 enumerable,
